@@ -488,6 +488,8 @@ def coerce(val: SV, ty: Ty) -> SV:
         return SV(ty, val.v)
     if k == "seq" and val.ty.kind == "seq" and val.ty.sorts() == ty.sorts():
         return SV(ty, val.v)
+    if k == "seq" and val.ty.kind == "seq" and z3.is_app(val.v) and val.v.decl().kind() == z3.Z3_OP_SEQ_EMPTY:
+        return SV(ty, z3.Empty(ty.sorts()[0]))   # the literal [] has whatever element type it is used at
     if k == "any":
         if val.ty.kind == "any":
             return val
